@@ -16,7 +16,9 @@ SPEC = {
                   "convergence under fairness is NOT proved - a theorem exhibits a fair schedule (every packet delivered, every tunnel checked "
                   "every round, traffic both ways) that cycles for ever in the model, where the timer wheel is abstracted to 'may fire at any "
                   "time'. The netsim component checks the convergence clause on the real code with the REAL timer wheel driven by a virtual "
-                  "clock: quiet loss-free network + traffic both ways => one matching tunnel each within 40 s virtual.",
+                  "clock: quiet loss-free network + traffic both ways => one matching tunnel each within 40 s virtual; and, in the boundary/random "
+                  "family 'first data packet on one tunnel lost, swap, peer silent, quiet intervals, then traffic', after the quiet intervals both nodes "
+                  "still hold a tunnel, their primaries are each other's ends, and data sent afterwards is delivered.",
     "level_note": "Trusted: Coq kernel; the hand-written two-node model (tied to two real nodes built by nebula.Main - real Interface, HostMap, "
                   "HandshakeManager, connectionManager, firewall, certificates, noise handshakes and AEAD - by replaying each schedule on the "
                   "model inside Coq and comparing pending entry, hostmap order, flags, counters, emitted packets and tun output after EVERY "
@@ -29,7 +31,7 @@ SPEC = {
     "corr": ["corr/Converge_corr.v"],
     "build_comp": "convergenet",
     "comps": [{"comp": "converge", "n_quick": 400, "n_thorough": 6000},
-              {"comp": "convergenet", "n_quick": 32, "n_thorough": 400, "e2e": True}],
+              {"comp": "convergenet", "n_quick": 36, "n_thorough": 400, "e2e": True}],
     "trusted": ["model/Converge.v is a hand-written mirror of handshake_manager.go / hostmap.go / connection_manager.go / outside.go / inside.go "
                 "for one peer (tied by the netsim correspondence after every event)",
                 "gen/Tab_Converge.v: the real shouldSwapPrimary on all 24 feature rows, 6 concrete situations each (translator by exhaustive "
